@@ -22,6 +22,8 @@ def run_rules(prop: str, repo: Repo, tier: str) -> Check:
     mod = importlib.import_module("gtirb_static.rules.%s" % prop.lower())
     chk = Check(prop, repo, tier)
     mod.run(chk)
+    from .rules.wellformed import check as wellformed
+    wellformed(chk)
     return chk
 
 
